@@ -134,14 +134,17 @@ def skip_task(task, context, completed_task_queue, reason=""):
 
 
 def skip_all_tasks(tasks, remaining_tasks, completed_tasks, context, pool, completed_tasks_queue, reason):
-    # schedule all tasks to be skipped...
-    for task in remaining_tasks:
-        pool.apply_async(skip_task, args=(task, context, completed_tasks_queue, reason))
+    # schedule the remaining tasks to be skipped, still in dependency order: a task "skip" may do actual work
+    # (teardown tasks run their teardown functions) that must not start before the tasks it depends on are over
+    def schedule_tasks_to_be_skipped():
+        for task in pop_runnable_tasks(remaining_tasks, completed_tasks, len(tasks)):
+            pool.apply_async(skip_task, args=(task, context, completed_tasks_queue, reason))
 
-    # ... and wait for their completion
+    schedule_tasks_to_be_skipped()
     while len(completed_tasks) != len(tasks):
         completed_task = completed_tasks_queue.get()
         completed_tasks.add(completed_task)
+        schedule_tasks_to_be_skipped()
 
 
 def run_tasks(tasks, context, nb_threads=1):
